@@ -324,7 +324,7 @@ impl GenSource {
             section,
             name_text: String::from_utf8_lossy(&owner.text()).into_owned(),
             rtype,
-            ttl: rng.next_u64() as u32,
+            ttl: gen_ttl(rng),
             rdata,
         }
     }
@@ -786,14 +786,14 @@ impl GenSource {
         let rec = c.rec?;
         Some(match self.rng.below(12) {
             0..=4 => CurOp::SetRawName(self.gen_valid_raw_name(cur_name.as_ref())),
-            5 | 6 => CurOp::SetTtl(self.rng.next_u64() as u32),
+            5 | 6 => CurOp::SetTtl(gen_ttl(&mut self.rng)),
             7 | 8 => {
                 if rec.rtype == T_A {
-                    CurOp::SetIp(self.rng.bytes(4))
+                    CurOp::SetIp(gen_addr(&mut self.rng, 4))
                 } else if rec.rtype == T_AAAA {
-                    CurOp::SetIp(self.rng.bytes(16))
+                    CurOp::SetIp(gen_addr(&mut self.rng, 16))
                 } else {
-                    CurOp::SetTtl(self.rng.next_u64() as u32)
+                    CurOp::SetTtl(gen_ttl(&mut self.rng))
                 }
             }
             9 | 10 => CurOp::Delete,
